@@ -1040,8 +1040,8 @@ class Client():
             ha = (host, port)
             if ha != self.connector.ha or scheme != self.requester.scheme:
                 if self.requester.scheme == 'https' and scheme != 'https':
-                    raise  ValueError("Attempt to redirect to non secure "
-                                      "host '{0}'".format(location))
+                    raise httping.InvalidURL("Attempt to redirect to non secure "
+                                             "host '{0}'".format(location))
                 self.connector.close()
                 if secured:
                     context = getattr(self.connector, 'context') if hasattr(self.connector, 'context') else None
